@@ -51,6 +51,10 @@ class FnModel:
         from .inline import canon_calls, inlined_function
         self.node, self.inlined = inlined_function(index, func)
         self.node = canon_calls(index, func.module, self.node)
+        from .inline import inline_pure_exprs
+        expanded = inline_pure_exprs(index, func.module, func.cls, self.node)
+        if ast.dump(expanded) != ast.dump(self.node):
+            self.node = expanded
         self.walk = walk_function(self.node)
         self.ren = role_rename(func.node, roles)
         self.roles = list(roles)
